@@ -638,7 +638,6 @@ func isString(t types.Type) bool {
 	return ok && b.Info()&types.IsString != 0
 }
 
-
 // wholeStringTest: g(s string) bool examines the characters of s one by one (s[i] with a
 // non-constant index, or range s) — or hands s to another function that does.
 func wholeStringTest(g *ssa.Function, depth int) bool {
